@@ -24,7 +24,7 @@ cleanup; trap - EXIT
 if ! git -C /repo diff --quiet; then echo "seedverify: /repo dirty"; exit 3; fi
 git -C /repo apply "$PATCH" || exit 3
 /verif/bin/check run "$PROP" --tier quick > /tmp/seedverify.$$.check 2>&1; check_rc=$?
-git -C /repo checkout -- .
+git -C /repo checkout -- . && git -C /repo clean -fdq
 grep -E "^violation class|^further violation|^check .* tier|HARNESS" /tmp/seedverify.$$.check | cut -c1-220
 echo "seedverify: $PROP $NAME -> check exit $check_rc (demo clean=$clean_rc patched=$patched_rc)"
 D=/verif/seeded/$PROP/$NAME; mkdir -p $D; cp "$PATCH" $D/patch.diff; cp "$DEMO" $D/$(basename "$DEST")
@@ -40,7 +40,7 @@ classes=[l.strip()[:200] for l in open(checklog, errors='replace') if l.startswi
 json.dump({"property":prop,"name":name,"breaks":meta.get("summary"),"needs":meta.get("needs"),
   "demo":{"file":os.path.basename(dest),"place_at":dest,"command":cmd,"exit_without_patch":int(clean),"exit_with_patch":int(patched)},
   "suite_failures_beyond_baseline":suite,
-  "what_i_ran":"tools/seedverify.sh: scratch worktree of /repo HEAD; demo run without and with the patch; go test -vet=off -count=1 ./... with the patch; then git -C /repo apply, /verif/bin/check run %s --tier quick, git -C /repo checkout -- ."%prop,
+  "what_i_ran":"tools/seedverify.sh: scratch worktree of /repo HEAD; demo run without and with the patch; go test -vet=off -count=1 ./... with the patch; then git -C /repo apply, /verif/bin/check run %s --tier quick, git -C /repo checkout -- . && git -C /repo clean -fdq"%prop,
   "check_exit":int(check),"check_classes":classes,"author_meta":meta}, open(os.path.join(D,'meta.json'),'w'), indent=1)
 PY
 rm -f /tmp/seedverify.$$.*
